@@ -992,6 +992,12 @@ class Watcher(object):
         self.reap_processes()
         yield self.spawn_processes()
 
+        if self._status != "starting":
+            # a stop (or another start: on-demand watchers are started
+            # outside the command lock) took over while we were sleeping
+            # between two spawns; it has the last word on the status
+            return
+
         # If not self.processes, the before_spawn or after_spawn hooks have
         # probably prevented startup so give up
         if (not self.processes and self.numprocesses > 0) or \
